@@ -815,31 +815,6 @@ example : getFirst [(b!"join_authorised_via_users_server", .str b!"@a:evil.com")
 example : memberContent dupViaWitness.content = some ⟨b!"join", b!"@admin:good.com"⟩ ∧
     requiredList "10" dupViaWitness b!"evil.com" = some [b!"evil.com", b!"good.com"] := by decide
 
-/-- no member of the object is a different spelling that encoding/json would match with `name` -/
-def NoVariant (kvs : List (Bytes × JVal)) (name : Bytes) : Prop :=
-  ∀ kv ∈ kvs, foldBytes kv.1 = foldBytes name → kv.1 = name
-
-theorem lookupField_eq_exact (name : Bytes) : ∀ (kvs : List (Bytes × JVal)) (acc : Option JVal), NoVariant kvs name →
-    kvs.foldl (fun acc kv => if kv.1 == name || foldBytes kv.1 == foldBytes name then some kv.2 else acc) acc =
-      kvs.foldl (fun acc kv => if kv.1 == name then some kv.2 else acc) acc
-  | [], _, _ => rfl
-  | kv :: rest, acc, h => by
-    have hrest : NoVariant rest name := fun x hx => h x (List.mem_cons_of_mem _ hx)
-    have hkv : (kv.1 == name || foldBytes kv.1 == foldBytes name) = (kv.1 == name) := by
-      by_cases he : (kv.1 == name) = true
-      · simp [he]
-      · have he' : (kv.1 == name) = false := by simpa using he
-        by_cases hf : (foldBytes kv.1 == foldBytes name) = true
-        · have := h kv List.mem_cons_self (eq_of_beq hf)
-          rw [this] at he'
-          simp at he'
-        · simp [he', hf]
-    simp only [List.foldl_cons, hkv]
-    exact lookupField_eq_exact name rest _ hrest
-
-theorem lookupField_eq_lookupExact {kvs : List (Bytes × JVal)} {name : Bytes} (h : NoVariant kvs name) :
-    lookupField kvs name = lookupExact kvs name := lookupField_eq_exact name kvs none h
-
 theorem decodeMapping_of_auth (mm : Option JVal) (h1 : (Auth.decodeMxidMapping mm).snd = false)
     (h2 : (Auth.decodeMxidMapping mm).fst.err = false) : ∃ x, decodeMapping mm = some x := by
   unfold Auth.decodeMxidMapping at h1 h2
@@ -867,21 +842,16 @@ theorem decodeMapping_of_auth (mm : Option JVal) (h1 : (Auth.decodeMxidMapping m
     | str s => simp at h2
     | arr xs => simp at h2
 
-/-- **Bridge to C07's model.**  `VModel/Auth.lean` still models `NewMemberContentFromEvent` with the folded lookup
-    the code had before the repair of K1; on a content without other spellings of the four member names the auth
-    rules read, it agrees with `memberContent` (the repaired function).  Once `Auth.decodeMemberContent` uses
-    `lookupExact`, the hypothesis `hnv` disappears. -/
+/-- **Bridge to C07's model.**  `VModel/Auth.lean` models `NewMemberContentFromEvent` (the reading of the auth rules)
+    with the same exact lookups as `memberContent` (the reading of the signature checks): whenever the auth rules
+    decode a content, the signature checks read the same membership and the same authorising user from it — for
+    every content, case variants of the member names included. -/
 theorem memberContent_eq_auth (kvs : List (Bytes × JVal))
-    (hnv : ∀ name ∈ [b!"membership", b!"third_party_invite", b!"join_authorised_via_users_server", b!"mxid_mapping"], NoVariant kvs name)
     (mc : Auth.MemberContent) (hd : Auth.decodeMemberContent (some (.obj kvs)) = .ok mc) :
     memberContent (some (.obj kvs)) = some ⟨mc.membership, mc.authorisedVia⟩ := by
-  have h1 := lookupField_eq_lookupExact (hnv b!"membership" (by simp))
-  have h2 := lookupField_eq_lookupExact (hnv b!"third_party_invite" (by simp))
-  have h3 := lookupField_eq_lookupExact (hnv b!"join_authorised_via_users_server" (by simp))
-  have h4 := lookupField_eq_lookupExact (hnv b!"mxid_mapping" (by simp))
   unfold Auth.decodeMemberContent at hd
   unfold memberContent
-  simp only [h1, h2, h3, h4] at hd
+  simp only at hd
   simp only
   generalize lookupExact kvs b!"mxid_mapping" = mm at hd ⊢
   generalize decString (lookupExact kvs b!"membership") = m at hd ⊢
@@ -898,9 +868,24 @@ theorem memberContent_eq_auth (kvs : List (Bytes × JVal))
       obtain ⟨x, hx⟩ := decodeMapping_of_auth mm (by simpa using hun) hne.2
       rw [hx]
       simp [hne.1.1.1, hne.1.1.2, hne.1.2]
-/-- the hypotheses of `memberContent_eq_auth` hold of an ordinary restricted join … -/
+/-- the hypothesis of `memberContent_eq_auth` holds of an ordinary restricted join … -/
+example : (match Auth.decodeMemberContent (some (.obj [(b!"membership", .str b!"join"),
+      (b!"join_authorised_via_users_server", .str b!"@a:hs2")])) with
+    | .ok mc => mc.membership == b!"join" && mc.authorisedVia == b!"@a:hs2"
+    | .error _ => false) = true := by decide
 example : memberContent (some (.obj [(b!"membership", .str b!"join"), (b!"join_authorised_via_users_server", .str b!"@a:hs2")])) =
     some ⟨b!"join", b!"@a:hs2"⟩ := by decide
+/-- … and the inputs on which the two readings used to differ (a case variant of a member name, alone or after the
+    exact name) are now read the same way by both: no authorising user, membership `invite`. -/
+example : (match Auth.decodeMemberContent (some (.obj [(b!"membership", .str b!"join"),
+      (b!"Join_authorised_via_users_server", .str b!"@admin:good.com")])) with
+    | .ok mc => mc.membership == b!"join" && mc.authorisedVia == []
+    | .error _ => false) = true := by decide
+example : (match Auth.decodeMemberContent (some (.obj [(b!"membership", .str b!"invite"), (b!"Membership", .str b!"leave")])) with
+    | .ok mc => mc.membership == b!"invite"
+    | .error _ => false) = true := by decide
+example : memberContent (some (.obj [(b!"membership", .str b!"invite"), (b!"Membership", .str b!"leave")])) =
+    some ⟨b!"invite", []⟩ := by decide
 
 /-! ### The pseudo-ID room version (org.matrix.msc4014) -/
 
